@@ -211,8 +211,10 @@ class Ctx:
                 rc, out, err = 124, "", "make timed out"
             b.log = out + "\n" + err
             b.wall = time.time() - t0
+            # make's exit status is authoritative; the mtime test only matters when make failed part-way
+            # (with -k other targets are still built)
             built = [f for f in files if (COQ / (f[:-2] + ".vo")).exists()
-                     and (COQ / (f[:-2] + ".vo")).stat().st_mtime >= (COQ / f).stat().st_mtime]
+                     and (rc == 0 or (COQ / (f[:-2] + ".vo")).stat().st_mtime >= (COQ / f).stat().st_mtime)]
             b.discharged = len([s for s in b.statements if s[0] in built])
             if rc != 0 or len(built) != len(files):
                 b.ok = False
